@@ -151,13 +151,26 @@ def run_case(ctx, backend: str, init: str, kinds: List[str], chooser_factory) ->
             md = t.metadata_manager.refresh()
             uuids[n] = md.table_uuid if md else None
         out["uuids"] = uuids
+        out["pre"] = pre
+        out["meta_files"] = sorted(k for k in (store.objects if store is not None else []) if "/metadata/v" in k) if store is not None else \
+            sorted(f for f in os.listdir(os.path.join(root, "metadata")) if f.startswith("v") and f.endswith(".metadata.json"))
         try:
             out["final"] = P.read_table_independent(fetch)
         except Exception as e:
             out["final"] = {"error": repr(e)[:200]}
-        out["pre"] = pre
-        out["meta_files"] = sorted(k for k in (store.objects if store is not None else []) if "/metadata/v" in k) if store is not None else \
-            sorted(f for f in os.listdir(os.path.join(root, "metadata")) if f.startswith("v") and f.endswith(".metadata.json"))
+            pointer_gone = (("tbl/" + P.HINT) not in store.objects) if store is not None else not os.path.exists(os.path.join(root, P.HINT))
+            if pointer_gone and init in ("pointer_lost", "v0_pointer_lost"):
+                # creators / openers do not rewrite a lost pointer (only a commit does): the table is then what the recovery
+                # rule says -- the highest metadata version on storage -- read here independently of the library
+                import re as _re
+                names = [m.rsplit("/", 1)[-1] for m in out["meta_files"]]
+                best = max(names, key=lambda n: int(_re.match(r"v(\d+)", n).group(1))) if names else None
+                if best is not None:
+                    try:
+                        out["final"] = P.read_table_independent(lambda rel: best.encode() if rel == P.HINT else fetch(rel))
+                        out["final_via_recovery"] = best
+                    except Exception as e2:
+                        out["final"] = {"error": repr(e2)[:200]}
     return out
 
 
@@ -199,11 +212,17 @@ def project(out: Dict[str, Any]) -> Tuple[List[Tuple[int, str]], List[str]]:
     decided by the LAST operation of its refresh (pointer read, or the recovery listing when the pointer is absent)."""
     items: List[List[Any]] = []          # [key, actor index, text]
     st: Dict[str, Dict[str, Any]] = {}
+    ext_holder: Optional[str] = None     # a COMMIT (the first appender's; C01's machine) holding the table lock
     for idx, e in enumerate(out["log"]):
         a, op, path, phase, result = e["actor"], e["op"], e["path"], e["phase"], e["result"]
         ai = int(a[1:])
         s = st.setdefault(a, {"stage": "probe", "probe": None, "check": None, "adopt": None})
         pcs = P.path_class(path)
+        if "MetadataManager.initialize_table" not in phase:
+            if op == "LockTry" and result == "ok":
+                ext_holder = a
+            elif op == "LockRel" and ext_holder == a:
+                ext_holder = None
         if any(p.startswith("Transaction.") for p in phase) or "Table.append_records" in phase:
             continue      # the appender's transaction: C01's machine
         in_init = "MetadataManager.initialize_table" in phase
@@ -216,6 +235,11 @@ def project(out: Dict[str, Any]) -> Tuple[List[Tuple[int, str]], List[str]]:
                 s["probe"][0] = idx
             if op == "list_files" or (pcs == "hint" and op == "read_file"):
                 s["refresh_done"] = True      # later refreshes of the same call (create_table's schema check) are not the probe
+        elif in_init and op == "LockTry" and result != "ok" and ext_holder is not None:
+            # the lock is held by a committer, which Model/Create.v does not contain: a failed try is a stutter step
+            if s["probe"] is not None:
+                s["probe"][2] = "CProbe false"
+            s["stage"] = "lockwait"
         elif in_init and op == "LockTry":
             if s["probe"] is not None:
                 s["probe"][2] = "CProbe false"
@@ -244,6 +268,11 @@ def project(out: Dict[str, Any]) -> Tuple[List[Tuple[int, str]], List[str]]:
                 s["adopt"][0] = idx
             if op == "list_files" or (pcs == "hint" and op == "read_file"):
                 s["adopt_done"] = True
+    # an opener that found no table (load_table raised "No Iceberg table") probed false and does nothing else
+    for a, s in st.items():
+        o = out["outcomes"].get(a)
+        if o and o[0] != "ok" and "No Iceberg table" in o[1] and s["probe"] is not None and out["kinds"][int(a[1:])] in ("open", "table"):
+            s["probe"][2] = "CProbe false"
     items.sort(key=lambda x: x[0])
     return [(ai, k) for _key, ai, k in items], []
 
